@@ -11,6 +11,9 @@ UNICODE_ALPHABET = ['a', 'e', '\u0301', '\u2126', 'o', '\u0308']   # combining m
 
 
 def charset(nchars, with_space=False, kind='ascii'):
+    if kind == 'big':
+        chars = [chr(0x100 + i) for i in range(nchars)]       # a charset the size of a real OCR model's
+        return chars + ([' '] if with_space else [])
     chars = (UNICODE_ALPHABET if kind == 'unicode' else ALPHABET)[:nchars]
     if with_space:
         chars = chars + [' ']
@@ -48,6 +51,9 @@ def line_dense_logits(seed, frames, nsym, amb, value_range='std'):
                 x[t] += 63.0
             else:
                 x[t] = rs.uniform(-63.0, -54.0, size=nsym + 1)
+    if value_range == 'flat':
+        # nearly uniform posteriors: almost nothing is pruned, so the sparse matrix is nearly dense
+        x = rs.uniform(-1.0, 1.0, size=(frames, nsym + 1))
     if value_range == 'logprob':
         # a network that emits log-probabilities: the winner of a confident frame sits at about -1e-9
         x = x * 4.0
